@@ -258,6 +258,18 @@ def multiCoilFold {α β : Type} (f : α → β) (c : Nat) (xs : List (List α))
 /-- generic row-major reshape of the leading two axes into `rows` rows of `len` entries (flat data) -/
 def rowsOf {α : Type} (rows len : Nat) (flat : List α) : List (List α) := unmergeBC rows len flat
 
+/-! ## sums accumulated chunk by chunk (what a size-dependent "memory saving" path does to a coil sum) -/
+
+/-- accumulate `Σ xs` over `m` consecutive chunks of `k` entries -/
+def chunkSum (k m : Nat) (xs : List G) : G :=
+  (List.range m).foldl (fun acc i => cadd acc (csum ((xs.drop (i * k)).take k))) (0, 0)
+
+/-- `for i in range(n // k)`: the trailing `n % k` entries are never visited -/
+def chunkSumFloor (k : Nat) (xs : List G) : G := chunkSum k (xs.length / k) xs
+
+/-- `for i in range((n + k - 1) // k)` (or `torch.split`): every entry is visited -/
+def chunkSumCeil (k : Nat) (xs : List G) : G := chunkSum k ((xs.length + k - 1) / k) xs
+
 /-! ## the translator's record of one call site, and the judgement -/
 
 /-- one batched primitive as the source writes it.
@@ -270,6 +282,13 @@ def rowsOf {α : Type} (rows len : Nat) (flat : List α) : List (List α) := unm
 * family 3 — `form`: first target extent is 0 the batch size, 1 the literal `-1`, 2 a product containing the batch size,
   3 another integer literal, 5 another named extent; `args = [rest]` with rest 0 "all remaining extents are 1",
   1 "the second extent restores the folded axis", 2 otherwise;
+* family 8 — shape- or mode-dependent control flow: `form` 0 an `if` / conditional expression whose test reads
+  `self.training`, 1 whose test reads a tensor extent, 2 a loop over `range(…)` whose bounds do arithmetic on an extent
+  (`n // K`, a step: a partial / chunked iteration), 3 a loop over a full extent; `args` lists what the guarded region does:
+  1 a reduction, 2 a call into /repo/direct, 4 a slice / narrow / split / select with computed bounds at the batch or coil
+  position, 8 an accumulation (`x = x + …`), 32 building a Python list, 64 a slice at a later (spatial) position.  Accepted:
+  full-extent loops, and branches / partial loops whose region neither reduces, nor slices the batch / coil axis, nor
+  accumulates — "no shape- or mode-dependent branching that changes which elements are reduced";
 * `sink` 1: the value only feeds the test of an `if` whose body is nothing but `warnings.warn(…)`. -/
 structure Prim where
   fn : String
@@ -292,6 +311,7 @@ def Prim.ok (p : Prim) : Bool :=
   | 3 => p.form == 0 || (p.form == 1 && p.args == [0]) || p.form == 2
   | 4 => p.form == 0 && !p.args.isEmpty && p.args.all (· != 0)
   | 6 => p.form == 0
+  | 8 => p.form == 3 || !(p.args.contains 1 || p.args.contains 4 || p.args.contains 8)
   | _ => false
 
 def Prim.isMerge (p : Prim) : Bool := p.family == 3 && p.form == 2
